@@ -599,11 +599,52 @@ def output_rules(repo: Repo, rep, P: str):
     mr = repo.cls("ModuleReader", module="rv.readers.module")
     pc = repo.own_method(mr, "process_chunks")
     srcs = [norm(s) for s in pc.body]
-    if any(s.replace(" ", "") == "self.object=Module()ifself._index>0elseOutput()" for s in srcs):
-        rep.ok(f"{P}.R4", f"{mr.file.rel}:ModuleReader.process_chunks", "Module() if self._index > 0 else Output()",
+    # which class is built for position 0 and for position 1: fold the conditional with self._index replaced
+    import copy as _copy
+
+    def built_for(k: int) -> Optional[str]:
+        class Rep(ast.NodeTransformer):
+            def visit_Attribute(self, node):
+                if norm(node) == "self._index":
+                    return ast.copy_location(ast.Constant(value=k), node)
+                return self.generic_visit(node)
+        for st in ast.walk(pc):
+            tgt = val = None
+            if isinstance(st, ast.Assign) and any(norm(t) == "self.object" for t in st.targets):
+                val = st.value
+            if val is None:
+                continue
+            v2 = Rep().visit(_copy.deepcopy(val))
+            ast.fix_missing_locations(v2)
+            while isinstance(v2, ast.IfExp):
+                try:
+                    v2 = v2.body if repo.fold(v2.test, ci=mr) else v2.orelse
+                except Exception:
+                    return None
+            if isinstance(v2, ast.Call):
+                return norm(v2.func).split(".")[-1]
+        # statement form: if self._index …: self.object = A() else: self.object = B()
+        for st in pc.body:
+            if isinstance(st, ast.If):
+                t2 = Rep().visit(_copy.deepcopy(st.test))
+                ast.fix_missing_locations(t2)
+                try:
+                    br = st.body if repo.fold(t2, ci=mr) else st.orelse
+                except Exception:
+                    return None
+                for b in br:
+                    if isinstance(b, ast.Assign) and any(norm(t) == "self.object" for t in b.targets) and isinstance(b.value, ast.Call):
+                        return norm(b.value.func).split(".")[-1]
+        return None
+    b0, b1 = built_for(0), built_for(1)
+    if b0 == "Output" and b1 == "Module":
+        rep.ok(f"{P}.R4", f"{mr.file.rel}:ModuleReader.process_chunks", "position 0 → Output(), other positions → Module()",
                "reader builds Output for position 0")
+    elif b0 is None or b1 is None:
+        rep.inconclusive(f"{P}.R4", f"{mr.file.rel}:ModuleReader.process_chunks", "; ".join(srcs)[:120],
+                         "construction of the module object by position not recognised", f"{mr.file.rel}:{pc.lineno}")
     else:
-        rep.violation(f"{P}.R4", f"{mr.file.rel}:ModuleReader.process_chunks", "; ".join(srcs)[:120],
+        rep.violation(f"{P}.R4", f"{mr.file.rel}:ModuleReader.process_chunks", f"position 0 → {b0}(), position 1 → {b1}()",
                       "the module read at position 0 must be constructed as Output", f"{mr.file.rel}:{pc.lineno}")
     sr = repo.cls("SunVoxReader", module="rv.readers.sunvox")
     sfff = repo.own_method(sr, "process_SFFF")
